@@ -41,10 +41,17 @@ type caseID struct {
 	Idx    int      `json:"idx"`
 	Ops    []string `json:"ops"`
 	Repair string   `json:"repair"`
+	// Wire, when set, is the byte-level layout (names of top-level wire items in order) in which the
+	// case's header is presented; the judged object is what UnmarshalExtendedHeader makes of those bytes.
+	Wire []string `json:"wire,omitempty"`
 }
 
 func (c caseID) String() string {
-	return fmt.Sprintf("%s/h%d/%s/%s", c.Chain, c.Idx, strings.Join(c.Ops, " ; "), c.Repair)
+	s := fmt.Sprintf("%s/h%d/%s/%s", c.Chain, c.Idx, strings.Join(c.Ops, " ; "), c.Repair)
+	if len(c.Wire) > 0 {
+		s += "/wire[" + layoutString(c.Wire) + "]"
+	}
+	return s
 }
 
 type violation struct {
@@ -205,29 +212,32 @@ func decJSON(b []byte) (h *EH, err error) {
 // statistics
 
 type stats struct {
-	evaluations    int64
-	inapplicable   int64
-	validateCalls  int64
-	verifyCalls    int64
-	reencCompared  int64
-	oracleChecks   int64
-	undecided      int64
-	predTrueAcc    int64
-	predTrueRej    int64
-	predFalseRej   int64
-	trustTrueAcc   int64
-	trustTrueRej   int64
-	trustFalseRej  int64
-	adjAcc, adjRej int64
-	posControls    int64
-	msgIDs         int64
-	validateClass  map[string]int64
-	verifyClass    map[string]int64
-	reencClass     map[string]int64
-	fieldMut       map[string]int64 // un-repaired single mutations per field group
-	fieldRej       map[string]int64 // ... of which rejected
-	acceptedBenign map[string]int64 // un-repaired single mutations that changed the header and were accepted (predicate true)
-	libDisagree    []string
+	evaluations                                                int64
+	inapplicable                                               int64
+	validateCalls                                              int64
+	verifyCalls                                                int64
+	reencCompared                                              int64
+	oracleChecks                                               int64
+	undecided                                                  int64
+	predTrueAcc                                                int64
+	predTrueRej                                                int64
+	predFalseRej                                               int64
+	trustTrueAcc                                               int64
+	trustTrueRej                                               int64
+	trustFalseRej                                              int64
+	adjAcc, adjRej                                             int64
+	posControls                                                int64
+	msgIDs                                                     int64
+	wireCases, wireDecoded, wireDecodeFail, wireNotReencodable int64
+	wireNonCanonical, wireSameHeader, wireOtherHeader          int64
+	wireHeadersEvaluated                                       int64
+	validateClass                                              map[string]int64
+	verifyClass                                                map[string]int64
+	reencClass                                                 map[string]int64
+	fieldMut                                                   map[string]int64 // un-repaired single mutations per field group
+	fieldRej                                                   map[string]int64 // ... of which rejected
+	acceptedBenign                                             map[string]int64 // un-repaired single mutations that changed the header and were accepted (predicate true)
+	libDisagree                                                []string
 }
 
 func newStats() *stats {
@@ -259,6 +269,14 @@ func (s *stats) merge(o *stats) {
 	s.adjRej += o.adjRej
 	s.posControls += o.posControls
 	s.msgIDs += o.msgIDs
+	s.wireCases += o.wireCases
+	s.wireDecoded += o.wireDecoded
+	s.wireDecodeFail += o.wireDecodeFail
+	s.wireNotReencodable += o.wireNotReencodable
+	s.wireNonCanonical += o.wireNonCanonical
+	s.wireSameHeader += o.wireSameHeader
+	s.wireOtherHeader += o.wireOtherHeader
+	s.wireHeadersEvaluated += o.wireHeadersEvaluated
 	mergeMap(s.validateClass, o.validateClass)
 	mergeMap(s.verifyClass, o.verifyClass)
 	mergeMap(s.reencClass, o.reencClass)
@@ -273,6 +291,7 @@ type shared struct {
 	mu       sync.Mutex
 	distinct map[string]struct{}
 	msgByBlk map[string]msgEntry
+	wireSeen map[string]struct{}
 	samples  map[string]any
 }
 
@@ -285,14 +304,15 @@ type msgEntry struct {
 // one evaluation = one variant against every rule
 
 type evalCtx struct {
-	st      *stats
-	sh      *shared
-	trusted []*EH // this worker's own copies of the honest chain, decoded from the wire form
-	honFP   string
-	sm      *sigMemo         // oracle-side memo of signature checks (pure function)
-	libSig  map[string]bool  // memo of the library's single-signature check, used only for the oracle/library comparison
-	lite    bool             // thorough-tier operator pairs: skip the two JSON paths and the Verify of the re-encoded copy (both are decided on the single-mutation ladder)
-	summary *strings.Builder // when set, the observable outcome is written here (determinism check, replay)
+	st         *stats
+	sh         *shared
+	trusted    []*EH // this worker's own copies of the honest chain, decoded from the wire form
+	honFP      string
+	sm         *sigMemo         // oracle-side memo of signature checks (pure function)
+	libSig     map[string]bool  // memo of the library's single-signature check, used only for the oracle/library comparison
+	noJSON     bool             // skip the two JSON paths (thorough-tier operator pairs, headers decoded from non-canonical bytes: JSON invariance is decided on the single-mutation ladder)
+	noReVerify bool             // skip Verify of the re-encoded copy (thorough-tier operator pairs)
+	summary    *strings.Builder // when set, the observable outcome is written here (determinism check, replay)
 }
 
 func blockKey(c *core.Commit) string {
@@ -445,7 +465,7 @@ func evaluate(ec *evalCtx, id caseID, h *EH, single *op) []violation {
 		viaBin = g
 		compare("binary", g)
 	}
-	if ec.lite {
+	if ec.noJSON {
 		// binary path only
 	} else if js, err := encJSON(h); err != nil {
 		lost("json", "encode", err)
@@ -455,7 +475,7 @@ func evaluate(ec *evalCtx, id caseID, h *EH, single *op) []violation {
 		st.reencClass["json:ok"]++
 		compare("json", g)
 	}
-	if viaBin != nil && !ec.lite {
+	if viaBin != nil && !ec.noJSON {
 		path := "binary-json-binary"
 		if js, err := encJSON(viaBin); err != nil {
 			lost(path, "json-encode", err)
@@ -498,7 +518,7 @@ func evaluate(ec *evalCtx, id caseID, h *EH, single *op) []violation {
 	// ---- Verify against every honest header of the chain as the trusted one
 	for k, tr := range ec.trusted {
 		untrusted := []*EH{h}
-		if viaBin != nil && !ec.lite {
+		if viaBin != nil && !ec.noReVerify {
 			untrusted = append(untrusted, viaBin)
 		}
 		var first verdict
@@ -622,6 +642,8 @@ type workItem struct {
 	idx  int
 	ops  []op
 	full bool // full repair ladder (single mutations) or the short one (pairs)
+	wire *wireChunk
+	wa   *wireAlpha
 }
 
 func neighbours(ch *chain, idx int) []int {
@@ -667,7 +689,7 @@ func TestVerifC16(t *testing.T) {
 		"x every operator of the mutation alphabet (each raw-header field; DAH roots changed/removed/added/swapped/transposed/boundary-shifted; commit height/round/block id/part-set header; " +
 		"per signature flip/absent/nil-vote/flag/timestamp/address/swap/copy/neighbour's, every status vector over {valid,absent,nil,corrupt}; validator set remove/add/re-power/re-key/reorder/duplicate/proposer; " +
 		"every subset of the four parts taken from a neighbouring header) x every repair level (none, re-derived data/validators hash, re-pointed commit, re-signed by every subset of the keys) " +
-		"[x a second operator, short repair ladder]; a case is distinct and non-trivial when the field-by-field fingerprint of the resulting header differs from the honest header and from every other case"
+		"[x a second operator, short repair ladder]; plus, for every honest header, protobuf-legal non-canonical byte layouts of its encoding (field orders, earlier/later empty, partial, duplicated or neighbouring copies of each top-level field, unknown fields, wrong wire types, non-minimal varints); a case is distinct and non-trivial when the field-by-field fingerprint of the resulting header differs from the honest header and from every other case (wire layouts: when the decodable byte string differs from the canonical encoding and from every other byte string)"
 	rep.Assumptions = []string{
 		"signature forgery and hash collisions are not attempted (keys of the honest validators are used only where the case says a validator signs)",
 		"the oracle's encodings are written independently and compared with the library's on every case; ed25519 verification of the oracle is crypto/ed25519 of the Go standard library",
@@ -689,7 +711,7 @@ func TestVerifC16(t *testing.T) {
 		chains = append(chains, buildChain(cfg))
 	}
 
-	sh := &shared{distinct: map[string]struct{}{}, msgByBlk: map[string]msgEntry{}, samples: map[string]any{}}
+	sh := &shared{distinct: map[string]struct{}{}, msgByBlk: map[string]msgEntry{}, wireSeen: map[string]struct{}{}, samples: map[string]any{}}
 	total := newStats()
 	exhaustive := true
 
@@ -766,11 +788,24 @@ func TestVerifC16(t *testing.T) {
 			prim := primaries(c)
 			alphabetSizes[fmt.Sprintf("%s/h%d", ch.cfg.Name, idx)] = len(prim)
 			for _, o := range prim {
-				items = append(items, workItem{ch, idx, []op{o}, true})
+				items = append(items, workItem{ch: ch, idx: idx, ops: []op{o}, full: true})
 			}
 		}
 	}
 	singles := len(items)
+	// non-canonical wire encodings of every honest header (placed before the pairs so that a deadline cuts pairs first)
+	wireExtras := map[string]int{}
+	for _, ch := range chains {
+		for idx := range ch.honest {
+			wa := buildWireAlpha(ch, idx)
+			wireExtras[fmt.Sprintf("%s/h%d", ch.cfg.Name, idx)] = len(wa.extras)
+			for _, wc := range wireChunks(thorough, wa) {
+				wc := wc
+				items = append(items, workItem{ch: ch, idx: idx, wire: &wc, wa: wa})
+			}
+		}
+	}
+	wireItems := len(items) - singles
 	var pairAlphabet = map[string]int{}
 	for _, ch := range chains {
 		for idx := range ch.honest {
@@ -791,16 +826,24 @@ func TestVerifC16(t *testing.T) {
 			pairAlphabet[fmt.Sprintf("%s/h%d", ch.cfg.Name, idx)] = len(sel)
 			for a := 0; a < len(sel); a++ {
 				for b := a + 1; b < len(sel); b++ {
-					items = append(items, workItem{ch, idx, []op{sel[a], sel[b]}, false})
+					items = append(items, workItem{ch: ch, idx: idx, ops: []op{sel[a], sel[b]}})
 				}
 			}
 		}
 	}
-	// VERIF_SEED only rotates the order inside the two groups
+	// VERIF_SEED only rotates the order of the single-mutation group
 	if rep.Seed != 0 && singles > 0 {
 		r := int(uint64(rep.Seed) % uint64(singles))
 		s := append(append([]workItem{}, items[r:singles]...), items[:r]...)
 		copy(items[:singles], s)
+	}
+	// order of execution: wire layouts (cheap), single mutations, pairs — a deadline cuts pairs first
+	{
+		re := make([]workItem, 0, len(items))
+		re = append(re, items[singles:singles+wireItems]...)
+		re = append(re, items[:singles]...)
+		re = append(re, items[singles+wireItems:]...)
+		items = re
 	}
 
 	// ---- determinism self-check: the same cases evaluated twice give identical observations
@@ -824,7 +867,7 @@ func TestVerifC16(t *testing.T) {
 					}
 					var sb strings.Builder
 					ec := &evalCtx{st: st, trusted: tr, honFP: fingerprint(ch.honest[0]), summary: &sb}
-					evaluate(ec, caseID{ch.cfg.Name, 0, []string{o.name}, "none"}, h, nil)
+					evaluate(ec, caseID{Chain: ch.cfg.Name, Idx: 0, Ops: []string{o.name}, Repair: "none"}, h, nil)
 					obs[k] = sb.String()
 				}
 				if obs[0] != obs[1] {
@@ -838,7 +881,7 @@ func TestVerifC16(t *testing.T) {
 	// ---- run
 	var next int64 = -1
 	var stopped atomic.Bool
-	var doneSingles, donePairs int64
+	var doneSingles, donePairs, doneWire int64
 	workers := vx.Workers()
 	var wg sync.WaitGroup
 	var mu sync.Mutex
@@ -873,7 +916,22 @@ func TestVerifC16(t *testing.T) {
 					hfp = fingerprint(hon)
 					honFP[hon] = hfp
 				}
-				ec := &evalCtx{st: st, sh: sh, trusted: tr, honFP: hfp, sm: sm, libSig: libSig, lite: thorough && len(it.ops) > 1}
+				ec := &evalCtx{st: st, sh: sh, trusted: tr, honFP: hfp, sm: sm, libSig: libSig, noJSON: thorough && len(it.ops) > 1, noReVerify: thorough && len(it.ops) > 1}
+				if it.wire != nil {
+					expandWireChunk(thorough, it.wa, *it.wire, func(layout []string) {
+						b, err := it.wa.assemble(layout)
+						if err != nil {
+							panic(err)
+						}
+						id := caseID{Chain: it.ch.cfg.Name, Idx: it.idx, Ops: []string{"honest"}, Repair: "none", Wire: layout}
+						vs, h2 := evaluateWire(ec, id, b)
+						for _, vi := range vs {
+							rep.Violation(vi.sig, vi.what, caseArtefact(id, h2, vi.extra))
+						}
+					})
+					atomic.AddInt64(&doneWire, 1)
+					continue
+				}
 				names := make([]string, len(it.ops))
 				sigsOnly := true
 				for k, o := range it.ops {
@@ -954,15 +1012,32 @@ func TestVerifC16(t *testing.T) {
 	rep.Set("chains", cfgDesc)
 	rep.Set("operators_per_header", alphabetSizes)
 	rep.Set("pair_alphabet_per_header", pairAlphabet)
-	rep.Set("work_items", map[string]any{"single_mutations": singles, "single_done": doneSingles, "operator_pairs": len(items) - singles, "pairs_done": donePairs})
+	npairs := len(items) - singles - wireItems
+	rep.Set("work_items", map[string]any{"single_mutations": singles, "single_done": doneSingles, "wire_layout_chunks": wireItems, "wire_chunks_done": doneWire, "operator_pairs": npairs, "pairs_done": donePairs})
 	rep.Set("bounds_completed", func() string {
 		if exhaustive {
-			return fmt.Sprintf("all %d single mutations x full repair ladder and all %d operator pairs x short repair ladder", singles, len(items)-singles)
+			return fmt.Sprintf("all %d single mutations x full repair ladder, all %d non-canonical wire layouts of the honest headers and all %d operator pairs x short repair ladder", singles, total.wireCases, npairs)
 		}
-		return fmt.Sprintf("deadline hit: %d of %d single-mutation items and %d of %d pair items done", doneSingles, singles, donePairs, len(items)-singles)
+		return fmt.Sprintf("deadline hit: %d of %d single-mutation items, %d of %d wire-layout chunks and %d of %d pair items done", doneSingles, singles, doneWire, wireItems, donePairs, npairs)
 	}())
+	rep.Set("wire_encodings", map[string]any{
+		"extras_per_header": wireExtras,
+		"layout_families": map[bool]string{
+			false: "all 24 orders of the four top-level fields; non-minimal varint in each tag / each length / all; identity and reverse order x one extra item at each of the 5 slots; identity order x every ordered pair of extras at the front, and at the back",
+			true:  "all 24 orders; non-minimal varints; all 24 orders x one extra at each of the 5 slots; identity order x every ordered pair of extras at every pair of slots",
+		}[thorough],
+		"byte_strings_judged":                                 total.wireCases,
+		"decoded_by_UnmarshalExtendedHeader":                  total.wireDecoded,
+		"rejected_by_decoder (only 'MsgID returns' demanded)": total.wireDecodeFail,
+		"decoded_but_not_marshalable":                         total.wireNotReencodable,
+		"decoded_and_bytes_differ_from_canonical":             total.wireNonCanonical,
+		"decoded_to_exactly_the_honest_header":                total.wireSameHeader,
+		"decoded_to_some_other_header":                        total.wireOtherHeader,
+		"distinct_decoded_headers_run_through_all_rules":      total.wireHeadersEvaluated,
+	})
 	rep.Set("rules_applied", map[string]string{
-		"single mutations x full repair ladder": "Validate vs predicate; binary, JSON and binary->JSON->binary re-encoding (verdict, Hash, transportability); MsgID per block; Verify of the case and of its binary re-encoding against every honest header as trusted",
+		"non-canonical wire layouts of every honest header": "MsgID(bytes) returns; if the bytes decode: MsgID(bytes) == MsgID(MarshalBinary(decoded)); each distinct decoded header: Validate vs predicate, binary re-encoding (verdict, Hash, transportability), MsgID per block, Verify of it and of its canonical re-encoding against every honest header as trusted",
+		"single mutations x full repair ladder":             "Validate vs predicate; binary, JSON and binary->JSON->binary re-encoding (verdict, Hash, transportability); MsgID per block; Verify of the case and of its binary re-encoding against every honest header as trusted",
 		"operator pairs x short repair ladder (none, fixraw+fixcommit, fixraw+fixcommit+resign(all))": map[bool]string{
 			false: "same rules as single mutations (pairs over the core alphabet)",
 			true:  "pairs over the whole alphabet except the status vectors; Validate vs predicate, binary re-encoding, MsgID, Verify of the case (JSON paths and Verify of the re-encoded copy are decided on the single-mutation ladder only)",
@@ -1009,7 +1084,7 @@ func TestVerifC16(t *testing.T) {
 			if ch.cfg.Name != want.chain {
 				continue
 			}
-			id := caseID{want.chain, want.idx, want.ops, want.rp}
+			id := caseID{Chain: want.chain, Idx: want.idx, Ops: want.ops, Repair: want.rp}
 			h, err := rebuild(ch, id)
 			if err != nil {
 				continue
@@ -1097,7 +1172,7 @@ func replayC16(t *testing.T, rep *vx.Report, path string) {
 			if err != nil {
 				continue
 			}
-			sh := &shared{distinct: map[string]struct{}{}, msgByBlk: map[string]msgEntry{}}
+			sh := &shared{distinct: map[string]struct{}{}, msgByBlk: map[string]msgEntry{}, wireSeen: map[string]struct{}{}}
 			var tr []*EH
 			for _, x := range ch.honest {
 				tr = append(tr, wireCopy(x))
@@ -1109,7 +1184,19 @@ func replayC16(t *testing.T, rep *vx.Report, path string) {
 					evaluate(&evalCtx{st: newStats(), sh: sh, trusted: tr, honFP: ec.honFP}, *doc.Replay.Other, o, nil)
 				}
 			}
-			vs := evaluate(ec, id, h, nil)
+			var vs []violation
+			if len(id.Wire) > 0 {
+				b, err := buildWireAlpha(ch, id.Idx).assemble(id.Wire)
+				if err != nil {
+					t.Fatalf("replay: %v", err)
+				}
+				if run == 0 {
+					fmt.Printf("REPLAY-WIRE-BYTES %x\n", b)
+				}
+				vs, _ = evaluateWire(ec, id, b)
+			} else {
+				vs = evaluate(ec, id, h, nil)
+			}
 			if strings.Contains(doc.Signature, "positive-control") {
 				if v := runValidate(h); !v.ok {
 					vs = append(vs, violation{sig: doc.Signature, what: v.err})
